@@ -2,5 +2,6 @@ SPECIFICATION Spec
 CONSTANTS
   MaxCommits = 3
   MaxOps = 1
+  ModeDigits = "any"
 VIEW View
 INVARIANTS C14_BlockExact C14_NoChangeMigrates C15_TableMatchesHistory Emit
